@@ -111,7 +111,7 @@ Proof.
   { apply (test_group im s (PLoopVar LV_COUNTER) (PInt 1) OP_NOTEQ cnt (VInt 1) ne); try assumption; try reflexivity; try discriminate.
     exact (get_lv s lv d r LV_COUNTER cnt Hfr HlC). }
   set (s1 := put_vm s (DReg R_RESULT) ne 4) in *.
-  assert (Hs1 : sim ss s1) by (apply sim_put_reg_hidden; [exact Hsim|reflexivity]).
+  assert (Hs1 : sim ss s1) by (apply sim_put_reg_hidden; [exact Hsim|reflexivity|reflexivity]).
   assert (Hr1 : rf_get (m_regs s1) R_RESULT = Some ne) by (unfold s1; cbn [put_vm m_regs]; apply rf_get_set_same).
   assert (Hfr1 : m_frames s1 = FLoop lv d :: r) by exact Hfr.
   assert (Hfj1 : fetch im (m_pc s1) = Some (jump JC_IF_FALSE (8 + 2))) by exact Hfj.
@@ -264,7 +264,7 @@ Proof.
   { apply (test_group im s (PLoopVar LV_COUNTER) (PInt 0) OP_NOTEQ cnt (VInt 0) ne); try assumption; try reflexivity; try discriminate.
     exact (get_lv s lv d r LV_COUNTER cnt Hfr HlC). }
   set (s1 := put_vm s (DReg R_RESULT) ne 4) in *.
-  assert (Hs1 : sim ss s1) by (apply sim_put_reg_hidden; [exact Hsim|reflexivity]).
+  assert (Hs1 : sim ss s1) by (apply sim_put_reg_hidden; [exact Hsim|reflexivity|reflexivity]).
   assert (Hr1 : rf_get (m_regs s1) R_RESULT = Some ne) by (unfold s1; cbn [put_vm m_regs]; apply rf_get_set_same).
   assert (Hfj1 : fetch im (m_pc s1) = Some (jump JC_IF_FALSE (11 + 1))) by exact Hfj.
   pose proof (jump_if_false im s1 ne (11 + 1) Hr1 Hfj1) as Ej.
@@ -280,7 +280,7 @@ Proof.
     assert (E2 : esteps 4 im s2 = Some (put_vm s2 (DReg R_RESULT) res 4, [])).
     { apply (test_group im s2 (PReg R_UNIT_MODE) (PMode UM_RAW) OP_EQ (VMode m) (VMode UM_RAW) res); try reflexivity; try discriminate; try exact Htest2; try exact Hum; try (destruct m; reflexivity). }
     set (s3 := put_vm s2 (DReg R_RESULT) res 4) in *.
-    assert (Hs3 : sim ss s3) by (apply sim_put_reg_hidden; [exact Hs2|reflexivity]).
+    assert (Hs3 : sim ss s3) by (apply sim_put_reg_hidden; [exact Hs2|reflexivity|reflexivity]).
     assert (Hr3 : rf_get (m_regs s3) R_RESULT = Some res) by (unfold s3; cbn [put_vm m_regs]; apply rf_get_set_same).
     assert (Hfj3' : fetch im (m_pc s3) = Some (jump JC_IF_FALSE (1 + 2))) by exact Hfj2.
     pose proof (jump_if_false im s3 res (1 + 2) Hr3 Hfj3') as Ej3.
